@@ -181,6 +181,11 @@ def render_canonical(spec, cls_suffix="", _providers_only=False, _uid=None):
         L += SIGDECO_SRC
     if any(x.get("awrap") for grp in (spec["cbs"], spec["guards"], spec["validators"]) for x in grp.values()):
         L += AWRAP_SRC
+    if not spec.get("style"):
+        for nm, g in spec["guards"].items():
+            if _guard_by_obj(g) and g["by_obj"] == "module":
+                # a guard that is a plain module-level function, passed as an object
+                L += [f"def {nm}(*args, **kwargs):", f"    return REC.guard({nm + '@sm'!r}, {nm!r}, kwargs)", ""]
     listeners = [p for p in spec["providers"] + spec.get("late", []) if p not in ("sm", "model")]
     # listener + model classes
     for prov in listeners + ["model"]:
@@ -222,6 +227,9 @@ def render_canonical(spec, cls_suffix="", _providers_only=False, _uid=None):
         for nm, g in spec["guards"].items():
             if prov in g["providers"]:
                 body += _guard_def(nm, g, prov)
+            elif g.get("decoy") == prov and _guard_by_obj(g) and not spec.get("style"):
+                # an unrelated method that merely has the same NAME as a guard function passed by object
+                body += _guard_def(nm, dict(g, kind="method"), prov)
         for nm, v in spec["validators"].items():
             if prov in v["providers"]:
                 body += _validator_def(nm, v, prov)
@@ -253,7 +261,7 @@ def render_canonical(spec, cls_suffix="", _providers_only=False, _uid=None):
             L += _cb_def(cid, cb)
     # guards referenced by object (the function itself is passed as cond= / unless=)
     for nm, g in spec["guards"].items():
-        if _guard_by_obj(g):
+        if _guard_by_obj(g) and g["by_obj"] != "module":
             L += _guard_def(nm, g, "sm")
     # states
     for st in spec["states"]:
